@@ -298,7 +298,76 @@ def mem_tasks(tier):
     return ts
 
 
+class SerdeSpec(TextSpec):
+    """C08 / C09 on the build-std IR (serde, bincode, hashbrown, in-memory file)"""
+    key_by_clause = False
+    assumptions = ['the structure that drives the serializer (group tags, member lists, persistence) is case-split by the runner: every structure of the configuration is a task; edge counts, data representation/length/bytes and label payloads are symbolic inside a task',
+                   'all labels of one run have the same kind: Alpha(any index), Greek(any character of one UTF-8 length), Str(ASCII characters) -- bincode writes a char as UTF-8; Str labels with multi-byte characters are outside the claim (deserialising eight symbolic multi-byte characters forks beyond the path cap)',
+                   'std::fs is an in-memory file (open/write/close stubs; std::fs::read returns the stored bytes); hash keys of the HashMap inside emap\'s visitor are fixed',
+                   'built with the nightly toolchain and -Zbuild-std']
+    bounds = 'N=1, capacity 2 (quick); thorough adds N=2, capacity 3'
+
+    def __init__(s, which):
+        GraphSpec.__init__(s, [], {'C08': "save() then load() executed on the IR: the loaded graph's abstract state equals the original's (position 0), the original is untouched, the returned size is the image size",
+                                   'C09': "the image cut at a SYMBOLIC length k < size: every path of load() must end in Err"}[which])
+        s.which = which
+
+    @property
+    def judge(s):
+        from . import refmodel
+        return refmodel.judge
+
+    def tasks(s, tier):
+        from . import pserde as PS
+        ts = []
+        cfgs = [(1, 2)] if tier == 'quick' else [(1, 2), (2, 3)]
+        for (N, cap) in cfgs:
+            structs = PS.structures(cap)
+            pers_all = list(__import__('itertools').product((0, 1, 2), repeat=cap))
+            pers_q = [tuple((i + k) % 3 for i in range(cap)) for k in range(3)]
+            for si, (tags, mem) in enumerate(structs):
+                full = tier == 'thorough' and cap == 2
+                for pers in (pers_all if full else pers_q):
+                    labs = PS.LAB_KINDS if (full or (si == 3 and pers == pers_q[1])) else ('alpha',)
+                    if tier == 'thorough' and cap == 3:
+                        labs = ('alpha', 'str1') if si % 4 == 0 else ('alpha',)
+                    for lab in labs:
+                        nm = "N=%d cap=%d tags=%s members=%s pers=%s labels=%s" % (N, cap, tags, mem, list(pers), lab)
+                        if s.which == 'C08':
+                            ts.append(Task("save-load " + nm, 'seir.pserde:ob_save_load', N=N, cap=cap, tags=list(tags), members={str(k): v for k, v in mem.items()},
+                                           pers=list(pers), lab=lab, _weight=50 if lab != 'alpha' else 20))
+                        else:
+                            if lab not in ('alpha', 'greek1', 'str1'):
+                                continue
+                            combos = (([1] * cap, [1] * cap), ([0] + [N] * (cap - 1), [0, 2] + [0] * (cap - 2)))
+                            if tier == 'quick':
+                                # one cut obligation per structure (persistence and payload shape rotate), label kinds on one structure
+                                if not ((pers == pers_q[si % 3] and lab == 'alpha') or (si == 3 and pers == pers_q[1] and lab != 'str1')):
+                                    continue
+                                combos = (combos[si % 2],)
+                            for (elen, dsel) in combos:
+                                ts.append(Task("truncated %s edges=%s data=%s" % (nm, elen, dsel), 'seir.pserde:ob_truncated', N=N, cap=cap, tags=list(tags),
+                                               members={str(k): v for k, v in mem.items()}, pers=list(pers), lab=lab, elen=elen, dsel=dsel, _weight=30))
+        return ts
+
+    def run(s, prop, tier, seed, args, t0):
+        from . import ptext as PT
+        b = H.build_drv('dev-like')
+        tb = PT.build_bs(extra=True)
+        tasks = s.tasks(tier)
+        if args.only:
+            tasks = [t for t in tasks if args.only in t.name]
+        results = H.run_tasks(tb['ll'], tasks, jobs=args.jobs, seed=seed)
+        b2 = dict(b, ll=tb['ll'], seconds=b['seconds'] + tb['seconds'], profile=tb['profile'])
+        return finish(prop, tier, seed, t0, b2, results, s)
+
+    def replay(s, path):
+        return GraphSpec.replay(s, path)
+
+
 PROPS = {
+    'C08': SerdeSpec('C08'),
+    'C09': SerdeSpec('C09'),
     'C17': TextSpec(),
     'C15': KaniSpec('c15_', "Hex observers, indices and the six range kinds agree with the byte slice (ok / panic harness pairs); equality across representations; i64/f64 conversions (engine K); from_str(print(h)) == h (engine S)",
                     text_tasks=lambda tier: [Task('print-parse Hex, %d bytes %s' % (L, 'inline' if inl else 'heap'), 'seir.ptext:ob_hex_print',
